@@ -367,7 +367,7 @@ impl<'a> World<'a> {
     }
 
     /// Deliver a genuine packet to the three receivers; `acc`/`must`/`replay` are the model's words.
-    fn deliver(&mut self, rtcp: bool, k: i64, i: i64, acc: bool, must: bool, replay: bool, wher: &str) {
+    fn deliver(&mut self, rtcp: bool, k: i64, i: i64, acc: bool, must: bool, replay: bool, imust: bool, wher: &str) {
         let proto = if rtcp { "rtcp" } else { "rtp" };
         let Some(s) = self.store.get(&(rtcp, k, i)) else {
             panic!("deliver of a packet never protected: {proto} {k} {i}");
@@ -399,6 +399,10 @@ impl<'a> World<'a> {
         } else if !replay && ok != acc {
             // outside the window the statement is silent; the model follows RFC 3711's estimate
             self.diverge("EXT", "Estimate", wher, "rr", proto, "", json!({"ssrc": k, "idx": i, "model_acc": acc, "observed": ok, "error": err}));
+        } else if imust && !must && !replay && !ok {
+            // a receiver that never evicts contexts would have had to accept this packet: the stream lost its
+            // rollover state to the (documented) idle-context eviction
+            self.diverge("EXT", "NoLossByEviction", wher, "rr", proto, "", json!({"ssrc": k, "idx": i, "error": err}));
         }
 
         // world r2ref: rustrtc -> reference
@@ -640,10 +644,14 @@ impl<'a> World<'a> {
     /// A forged packet arrives at rxA. Rules of C05 that need no model: it is rejected, and the
     /// receiver's cryptographic state (per-SSRC ROC / highest sequence / SRTCP index, with a missing
     /// context read as a fresh one) is what it was.
-    fn forge(&mut self, rtcp: bool, kind: &str, k: i64, base: i64, x: i64, rng: &mut Rng, wher: &str) {
+    fn forge(&mut self, rtcp: bool, kind: &str, k: i64, base: i64, x: i64, rep: u64, rng: &mut Rng, wher: &str) {
         let proto = if rtcp { "rtcp" } else { "rtp" };
         let variants = self.forge_variants(rtcp, kind, k, base, x, rng);
-        for v in variants {
+        // every concrete variant once, then the same packets again (cyclically) until the forgery has been
+        // presented `rep` times in a row: each presentation must be rejected and change nothing
+        let total = (variants.len() as u64).max(if variants.is_empty() { 0 } else { rep });
+        for n in 0..total {
+            let v = variants[(n as usize) % variants.len()].clone();
             self.variants += 1;
             self.evals += 1;
             let before = self.state_all(&self.rx_a);
@@ -655,7 +663,7 @@ impl<'a> World<'a> {
                 json!({"len": v.len(), "head": v.iter().take(16).map(|b| format!("{b:02x}")).collect::<String>()})
             };
             match &r {
-                Ok(()) => self.diverge("C05", "Rejected", wher, "rr", proto, kind, json!({"ssrc": k, "base": base, "x": x, "forged": diff_of(&v)})),
+                Ok(()) => self.diverge("C05", "Rejected", wher, "rr", proto, kind, json!({"ssrc": k, "base": base, "x": x, "presentation": n + 1, "forged": diff_of(&v)})),
                 Err(e) if e.starts_with("PANIC") => self.diverge("C05", "NoPanic", wher, "rr", proto, kind, json!({"ssrc": k, "error": e, "forged": diff_of(&v)})),
                 Err(_) => {}
             }
@@ -711,6 +719,8 @@ struct Step {
     acc: bool,
     must: bool,
     replay: bool,
+    rep: u64,
+    imust: bool,
 }
 
 fn step_of(v: &Value) -> Step {
@@ -725,6 +735,8 @@ fn step_of(v: &Value) -> Step {
         acc: a[6].as_i64().unwrap() == 1,
         must: a[7].as_i64().unwrap() == 1,
         replay: a[8].as_i64().unwrap() == 1,
+        rep: a.get(9).and_then(|v| v.as_u64()).unwrap_or(1).max(1),
+        imust: false,
     }
 }
 
@@ -733,8 +745,8 @@ fn run_step(w: &mut World, s: &Step, rng: &mut Rng, wher: &str) {
         "protect" => {
             if s.rtcp { w.protect_rtcp(s.k, s.idx, rng, wher) } else { w.protect_rtp(s.k, s.idx, rng, wher) }
         }
-        "deliver" => w.deliver(s.rtcp, s.k, s.idx, s.acc, s.must, s.replay, wher),
-        "forge" => w.forge(s.rtcp, &s.kind, s.k, s.idx, s.x, rng, wher),
+        "deliver" => w.deliver(s.rtcp, s.k, s.idx, s.acc, s.must, s.replay, s.imust, wher),
+        "forge" => w.forge(s.rtcp, &s.kind, s.k, s.idx, s.x, s.rep, rng, wher),
         "tick" => w.tick(),
         o => panic!("unknown op {o}"),
     }
@@ -767,7 +779,7 @@ fn preamble(w: &mut World, k: i64, start: i64, rng: &mut Rng) {
         }
         let key = (false, k, if last { start } else { -1000 - j });
         w.store.insert(key, Sent { plain_rtp: Some(pkt), plain_bytes: plain, x1, x3, real_idx: real, shape_ok });
-        w.deliver(false, k, key.2, true, true, false, "preamble");
+        w.deliver(false, k, key.2, true, true, false, false, "preamble");
         if !last {
             w.store.remove(&key);
         }
@@ -796,6 +808,15 @@ fn fillers(w: &mut World, wm: usize, rng: &mut Rng) {
     }
 }
 
+/// Was this genuine packet delivered (and accepted by the model) earlier in the edge's history?
+fn w_got(edge: &Value, rtcp: bool, k: i64, i: i64) -> bool {
+    let hit = |a: &Value| {
+        a[0].as_str() == Some("deliver") && (a[1].as_str() == Some("rtcp")) == rtcp && a[2].as_i64() == Some(k) && a[3].as_i64() == Some(i)
+    };
+    edge["pre"].as_array().map_or(false, |p| p.iter().any(hit)) || hit(&edge["act"])
+        || edge["cfg"]["start"].as_array().map_or(false, |s| s.iter().any(|r| !rtcp && r[0].as_i64() == Some(k) && r[1].as_i64() == Some(i)))
+}
+
 fn run_edge(edge: &Value, lineno: u64, pname: &str, use_ref: bool, few: bool, small: bool) -> (Vec<Value>, [u64; 5]) {
     let cfg = &edge["cfg"];
     let mut rng = Rng::from_env();
@@ -817,7 +838,8 @@ fn run_edge(edge: &Value, lineno: u64, pname: &str, use_ref: bool, few: bool, sm
     for (i, s) in pre.iter().enumerate() {
         run_step(&mut w, s, &mut rng, &format!("pre[{i}]"));
     }
-    let act = step_of(&edge["act"]);
+    let mut act = step_of(&edge["act"]);
+    act.imust = edge["imust"].as_i64() == Some(1);
     let exp = &edge["exp"];
     let forged = act.op == "forge";
 
@@ -906,6 +928,8 @@ fn run_edge(edge: &Value, lineno: u64, pname: &str, use_ref: bool, few: bool, sm
                 json!({"packet": [row[0], k, i], "model_must": true, "after": false, "before": was, "op": act.op}));
         } else if would != after {
             w.diverge("EXT", "Estimate", "probe", "rr", proto, &act.kind, json!({"packet": [row[0], k, i], "model_would": would, "after": after}));
+        } else if row.get(5).and_then(|v| v.as_i64()) == Some(1) && !must && !after && !w_got(edge, rtcp, k, i) {
+            w.diverge("EXT", "NoLossByEviction", "probe", "rr", proto, &act.kind, json!({"packet": [row[0], k, i], "op": act.op}));
         }
     }
     for (k, i, x, _pkt) in next_pkts.iter() {
